@@ -17,11 +17,23 @@ def write_series_dir(r, tier, d, nser=None):
         series = G.gen_series(r, tier, S=r.randint(1, 3), T=r.choice([1, 2]), V=1, ordering='explicit',
                               orient=r.choice(['axial', 'sagittal', 'coronal']))
         uid = '1.2.3.%d' % (100 + si)
+        # which of the attributes the default output name is built from the series carries: a derived
+        # series often has a description but no protocol name, some have no series number
+        naming = r.choice(['num+prot', 'num+prot', 'num+descr', 'num', 'prot', 'descr'])
+        series['naming'] = naming
         for f in series['files']:
-            f['meta'].update({'SeriesInstanceUID': uid, 'SeriesNumber': 1 + si,
-                              'ProtocolName': r.choice(['prot A', 'x', 'ep2d/bold']) if False else 'prot %d' % si})
+            f['meta'].update({'SeriesInstanceUID': uid})
+            for kk in ('SeriesNumber', 'ProtocolName', 'SeriesDescription'):
+                f['meta'].pop(kk, None)
+            if naming.startswith('num'):
+                f['meta']['SeriesNumber'] = 1 + si
+            if 'prot' in naming:
+                f['meta']['ProtocolName'] = 'prot %d' % si
+            if 'descr' in naming:
+                f['meta']['SeriesDescription'] = 'descr %d' % si
             ds = G.dataset_of(series, dict(f, id=k))
-            C18.write_ds(ds, os.path.join(d, 'im%03d.dcm' % k))
+            f['_path'] = 'im%03d.dcm' % k
+            C18.write_ds(ds, os.path.join(d, f['_path']))
             k += 1
         out.append(series)
     if r.random() < 0.3:
@@ -184,6 +196,22 @@ def dcmstack_round(rep, r, tier, tmp):
                 rep.failure('API reference raised %r' % e, dict(case, tag='cli:dcmstack:api'))
                 continue
             niis = [k for k in b if '.nii' in k]
+            # the name a group is written under depends on that group alone, not on what else the
+            # directory holds: converting each series from a directory of its own gives the same names
+            # (as long as they do not collide)
+            if ii == len(seq) - 1 and len(sers) > 1:
+                alone = []
+                for si, s_ in enumerate(sers):
+                    d_one = os.path.join(tmp, 'one%d_%d_%d' % (ci, ii, si)); os.makedirs(d_one)
+                    d_out = os.path.join(tmp, 'oneout%d_%d_%d' % (ci, ii, si)); os.makedirs(d_out)
+                    for f in s_['files']:
+                        shutil.copy(os.path.join(src, f['_path']), d_one)
+                    rc3, _ = run_cli_inproc(argv_of(d_one, d_out, opts))
+                    alone += [k for k in digest_dir(d_out) if '.nii' in k]
+                    shutil.rmtree(d_one, ignore_errors=True); shutil.rmtree(d_out, ignore_errors=True)
+                if len(set(alone)) == len(alone) == len(sers) and sorted(alone) != sorted(niis):
+                    rep.failure('dcmstack names the outputs of a directory %s, but the same series converted from directories '
+                                'of their own are named %s' % (sorted(niis), sorted(alone)), dict(case, tag='cli:dcmstack:names'))
             if len(niis) != len(ref):
                 rep.failure('dcmstack wrote %d images for %d groups (names %s)' % (len(niis), len(ref), sorted(b)), dict(case, tag='cli:dcmstack:names'))
             elif sorted(b[k] for k in niis) != sorted(x[0] for x in ref):
